@@ -260,6 +260,272 @@ def infidelity_case(inp):
 
 
 # ------------------------------------------------------------------------------------------------------------
+# argument frames (H2), repeated use of the same objects (H1), construction variants (H5), larger n (H3)
+# ------------------------------------------------------------------------------------------------------------
+def _bits(T):
+    return (np.array(T.table).copy(), np.array(T.phase).copy(), np.array(T.iphase).copy(), str(np.asarray(T.table).dtype), int(T.n_qubits))
+
+
+def _changed(T, snap):
+    now = _bits(T)
+    for nm_, a, b in zip(("table", "phase", "iphase"), snap[:3], now[:3]):
+        if a.shape != b.shape or not np.array_equal(a, b):
+            return f"{nm_} {a.tolist()} -> {b.tolist()}"
+    if snap[3:] != now[3:]:
+        return f"dtype/n_qubits {snap[3:]} -> {now[3:]}"
+    return None
+
+
+def _qs(T, mixed=False):
+    from graphiq.state import QuantumState
+
+    return QuantumState([(1.0, T)], rep_type="s", mixed=True) if mixed else QuantumState(T, rep_type="s")
+
+
+@S.item("arguments_unchanged", site=f"{MET}:fidelity, inner_product ; graphiq.backends.stabilizer.state:Stabilizer.__eq__ ; graphiq.metrics:Infidelity.evaluate",
+        bound="all 24 x 24 one-qubit tableau pairs, a seeded sample of two-qubit presentation pairs, sampled n=3..4 (random and near pairs); calls "
+              "fidelity(A,B), inner_product(A,B), fidelity(B,A), Stabilizer(A)==Stabilizer(B), Infidelity(A).evaluate(B), Infidelity(A).evaluate("
+              "mixture of A and B) one after the other on the SAME two tableau objects",
+        clause="fidelity / inner product / state equality / Infidelity return the exact value and leave the tableaux they are given bit-for-bit "
+               "unchanged (table, phase, iphase), so that every later call on the same objects is exact as well")
+def frame_case(inp):
+    ta, pa, tb, pb = inp
+    sfm = _g()[0]
+    from graphiq.backends.stabilizer.state import Stabilizer
+    from graphiq.metrics import Infidelity
+    from graphiq.state import QuantumState
+
+    va, n = vec(ta, pa)
+    vb, _ = vec(tb, pb)
+    want = overlap2(va, vb)
+    same = want > 1 - 1e-9
+    A, B = mk(ta, pa), mk(tb, pb)
+    sa, sb = _bits(A), _bits(B)
+    calls = [
+        ("fidelity(A,B)", lambda: sfm.fidelity(A, B), want),
+        ("|inner_product(A,B)|^2", lambda: abs(sfm.inner_product(A, B)) ** 2, want),
+        ("fidelity(B,A)", lambda: sfm.fidelity(B, A), want),
+        ("Stabilizer(A)==Stabilizer(B)", lambda: float(bool(Stabilizer(A) == Stabilizer(B))), float(same)),
+        ("1-Infidelity(A).evaluate(B)", lambda: 1 - Infidelity(_qs(A)).evaluate(_qs(B), None), want),
+        ("1-Infidelity(A as mixture).evaluate(0.25 A + 0.75 B)",
+         lambda: 1 - Infidelity(_qs(A, True)).evaluate(QuantumState([(0.25, A), (0.75, B)], rep_type="s", mixed=True), None), 0.25 + 0.75 * want),
+        ("fidelity(A,B) again", lambda: sfm.fidelity(A, B), want),
+    ]
+    for name, call, expect in calls:
+        got = call()
+        if abs(float(got) - expect) > TOL:
+            return f"{name} = {got!r}, expected {expect:.12g} (after the earlier calls on the same objects)"
+        for lab, T, s in (("first", A, sa), ("second", B, sb)):
+            d = _changed(T, s)
+            if d:
+                return f"{name} changed its {lab} tableau argument: {d}"
+    return None
+
+
+@S.item("same_object_on_both_sides", site=f"{MET}:fidelity, inner_product ; graphiq.backends.stabilizer.state:Stabilizer.__eq__ ; graphiq.metrics:Infidelity.evaluate",
+        bound="all 24 one-qubit tableaux, all 360 two-qubit (state, generating set) presentations, sampled n=3..4: the SAME tableau / Stabilizer / QuantumState "
+              "object is passed as both arguments",
+        clause="the fidelity equals 1 exactly when the two states are the same; state equality depends only on the state (a state compared with itself)")
+def alias_case(inp):
+    ta, pa = inp
+    sfm = _g()[0]
+    from graphiq.backends.stabilizer.state import Stabilizer
+    from graphiq.metrics import Infidelity
+
+    A = mk(ta, pa)
+    s = _bits(A)
+    f = sfm.fidelity(A, A)
+    if f != 1:
+        return f"fidelity(A, A) = {f!r} for the same object on both sides"
+    if sfm.inner_product(A, A) != 1:
+        return f"inner_product(A, A) = {sfm.inner_product(A, A)!r}"
+    SA = Stabilizer(A)
+    if not (SA == SA) or not (Stabilizer(A) == SA):
+        return "Stabilizer.__eq__ is False for a state compared with itself (same tableau object)"
+    q = _qs(A)
+    inf = Infidelity(q).evaluate(q, None)
+    if abs(inf) > TOL:
+        return f"Infidelity(q).evaluate(q) = {inf!r} for the same QuantumState object"
+    d = _changed(A, s)
+    if d:
+        return f"a call with the same object on both sides changed it: {d}"
+    f = sfm.fidelity(A, mk(ta, pa))
+    if f != 1:
+        return f"fidelity(A, fresh copy of A) = {f!r} after A was used on both sides"
+    return None
+
+
+@S.item("object_reuse.one_against_many", site=f"{MET}:fidelity ; graphiq.metrics:Infidelity.evaluate",
+        bound="seeded sample n=1..4: ONE tableau object A and ONE Infidelity(A) metric object against 4-6 tableau objects B_i (other presentations of the "
+              "same state, sign variants, states <= 3 gates away, random states), two passes over the list in opposite order; then the Stabilizer "
+              "object holding A is edited in place by one gate (H, P or X) and fidelity / equality against every B_i are asked again",
+        clause="the fidelity equals |<a|b>|^2 for all pairs - whatever the same objects were compared with before")
+def reuse_case(inp):
+    (ta, pa), others = inp
+    sfm = _g()[0]
+    from graphiq.metrics import Infidelity
+
+    va, n = vec(ta, pa)
+    A = mk(ta, pa)
+    s = _bits(A)
+    Bs = [(mk(tb, pb), vec(tb, pb)[0]) for tb, pb in others]
+    metric = Infidelity(_qs(A))
+    qB = [_qs(B) for B, _ in Bs]
+    for order in (range(len(Bs)), reversed(range(len(Bs)))):
+        for i in order:
+            B, vb = Bs[i]
+            want = overlap2(va, vb)
+            for name, got in (("fidelity(A,B_i)", sfm.fidelity(A, B)), ("fidelity(B_i,A)", sfm.fidelity(B, A)),
+                              ("1-metric.evaluate(B_i)", 1 - metric.evaluate(qB[i], None))):
+                if abs(float(got) - want) > TOL:
+                    return f"{name} with i={i} = {got!r}, |<a|b>|^2 = {want:.12g} (objects re-used across the list)"
+    d = _changed(A, s)
+    if d:
+        return f"the re-used tableau object changed: {d}"
+    # query - edit - query: the Stabilizer object holding A is edited in place by a gate (that is what the gate methods do); fidelity
+    # and equality are functions of the state the objects hold NOW
+    from graphiq.backends.stabilizer.state import Stabilizer
+
+    SA = Stabilizer(A)
+    SB = [Stabilizer(B) for B, _ in Bs]
+    for i, (B, vb) in enumerate(Bs):
+        if bool(SA == SB[i]) != (overlap2(va, vb) > 1 - 1e-9):
+            return f"Stabilizer.__eq__ wrong against B_{i} (objects re-used)"
+    gq = len(others) % n
+    gname = ["H", "P", "X"][len(others) % 3]
+    getattr(SA, {"H": "apply_hadamard", "P": "apply_phase", "X": "apply_sigmax"}[gname])(gq)
+    va2 = core.apply1(va, n, gq, core.GATES1[gname])
+    tab2 = np.asarray(SA.tableau.table)
+    if not (R.valid_clifford(tab2, n) and R.rows_describe(va2, n, tab2[n:], np.asarray(SA.tableau.phase)[n:]) is None):
+        return None  # the gate method itself is wrong: subject of C01/C07, not of this property
+    for i, (B, vb) in enumerate(Bs):
+        want = overlap2(va2, vb)
+        got = sfm.fidelity(SA.tableau, B)
+        if abs(float(got) - want) > TOL:
+            return f"after {gname} on qubit {gq} of the Stabilizer holding A: fidelity(A', B_{i}) = {got!r}, |<a'|b>|^2 = {want:.12g} (value from before the edit?)"
+        e1, e2 = SA == SB[i], SB[i] == SA
+        if bool(e1) != (want > 1 - 1e-9) or bool(e2) != (want > 1 - 1e-9):
+            return f"after {gname} on qubit {gq} of the Stabilizer holding A: __eq__ with B_{i} gives {e1}/{e2}, |<a'|b>|^2 = {want:.12g}"
+    return None
+
+
+VARIANTS = ["int arrays", "float64 arrays", "bool table / int8 phase", "copy constructor CliffordTableau(T)", "CliffordTableau(n) + destabilizer/stabilizer/phase setters",
+            "labels: destabilizer_from_labels / stabilizer_from_labels + phase setter", ".copy() of a tableau that was used in fidelity() before",
+            "QuantumState(T).copy().rep_data.data"]
+
+
+def build_variant(tab, ph, k):
+    sfm, CliffordTableau, StabilizerTableau, canonical_form = _g()
+    t = np.array(tab, dtype=int)
+    p = np.array(ph, dtype=int)
+    n = t.shape[0] // 2
+    if k == 0:
+        return CliffordTableau(t, p)
+    if k == 1:
+        return CliffordTableau(t.astype(float), p.astype(float))
+    if k == 2:
+        return CliffordTableau(t.astype(bool), p.astype(np.int8))
+    if k == 3:
+        return CliffordTableau(CliffordTableau(t, p))
+    if k == 4:
+        T = CliffordTableau(n)
+        T.destabilizer = t[:n].copy()
+        T.stabilizer = t[n:].copy()
+        T.phase = p.copy()
+        return T
+    if k == 5:
+        lab = lambda rows: ["".join("IXZY"[int(r[j]) + 2 * int(r[n + j])] for j in range(n)) for r in rows]  # noqa: E731
+        T = CliffordTableau(n)
+        T.destabilizer_from_labels(lab(t[:n]))
+        T.stabilizer_from_labels(lab(t[n:]))
+        T.phase = p.copy()
+        return T
+    if k == 6:
+        T = CliffordTableau(t, p)
+        sfm.fidelity(T, CliffordTableau(n))
+        sfm.fidelity(CliffordTableau(n), T)
+        return T.copy()
+    if k == 7:
+        return _qs(CliffordTableau(t, p)).copy().rep_data.data
+    raise ValueError(k)
+
+
+@S.item("construction_variants", site=f"{MET}:fidelity ; graphiq.backends.stabilizer.state:Stabilizer.__eq__ ; graphiq.metrics:Infidelity.evaluate",
+        bound="seeded sample of pairs n=1..4 (all 36 one-qubit state pairs, sampled two-qubit presentation pairs, sampled n=3..4 incl. near pairs and "
+              "sign variants) x 8 ways of building each tableau object (" + "; ".join(VARIANTS) + "), every ordered pair of ways at least once per size; "
+              "second argument additionally as StabilizerTableau([x, z], r) of the stabilizer half (n<=4; the larger sizes of that conversion belong to C11)",
+        clause="for all pairs of stabilizer states, presented by any generating sets and any destabilizers, however the tableau objects were built")
+def variant_case(inp):
+    ta, pa, tb, pb, ka, kb = inp
+    sfm, CliffordTableau, StabilizerTableau, canonical_form = _g()
+    from graphiq.backends.stabilizer.state import Stabilizer
+    from graphiq.metrics import Infidelity
+
+    va, n = vec(ta, pa)
+    vb, _ = vec(tb, pb)
+    want = overlap2(va, vb)
+    same = want > 1 - 1e-9
+    A, B = build_variant(ta, pa, ka), build_variant(tb, pb, kb)
+    for T, tab, ph, k in ((A, ta, pa, ka), (B, tb, pb, kb)):
+        if not (np.array_equal(np.asarray(T.table), np.array(tab)) and np.array_equal(np.asarray(T.phase), np.array(ph))):
+            return f"constructor: tableau built as '{VARIANTS[k]}' holds {np.asarray(T.table).tolist()} {np.asarray(T.phase).tolist()} instead of the rows given"
+    where = f"[A: {VARIANTS[ka]}; B: {VARIANTS[kb]}] "
+    f1, f2 = sfm.fidelity(A, B), sfm.fidelity(B, A)
+    if abs(float(f1) - want) > TOL or abs(float(f2) - want) > TOL:
+        return where + f"fidelity(A,B)={f1!r}, fidelity(B,A)={f2!r}, |<a|b>|^2={want:.12g}"
+    e = Stabilizer(A) == Stabilizer(B)
+    if bool(e) != same:
+        return where + f"Stabilizer.__eq__ = {e} for {'the same state' if same else 'different states'}"
+    for tm in (False, True):
+        got = Infidelity(_qs(A, tm)).evaluate(_qs(B, not tm), None)
+        if abs(got - (1 - want)) > TOL:
+            return where + f"Infidelity(target as {'mixture' if tm else 'Stabilizer'}).evaluate = {got!r}, expected {1 - want:.12g}"
+    t = np.array(tb, dtype=int)
+    Bst = StabilizerTableau([t[n:, :n].copy(), t[n:, n:].copy()], np.array(pb, dtype=int)[n:].copy())
+    f3 = sfm.fidelity(A, Bst)
+    if abs(float(f3) - want) > TOL:
+        return where + f"fidelity(A, StabilizerTableau of B)={f3!r}, |<a|b>|^2={want:.12g}"
+    return None
+
+
+@S.item("canonical_form_and_equality.n4_to_7_sampled", site=f"{STB}:canonical_form ; graphiq.backends.stabilizer.state:Stabilizer.__eq__",
+        bound="seeded random pairs of 4..7-qubit Clifford tableaux: another presentation of the same state, the same state with 1..n stabilizer signs "
+              "flipped (then re-presented), a state <= 3 gates away, an independent random state (canonical_form / __eq__ do not use inverse_circuit, "
+              "so known finding C05-F1 is out of reach)",
+        clause="state equality and the canonical form depend only on the state, and they distinguish states that differ only in the sign of a generator")
+def canon_large_case(inp):
+    ta, pa, tb, pb = inp
+    sfm, CliffordTableau, StabilizerTableau, canonical_form = _g()
+    from graphiq.backends.stabilizer.state import Stabilizer
+
+    va, n = vec(ta, pa)
+    vb, _ = vec(tb, pb)
+    same = overlap2(va, vb) > 1 - 1e-9
+    A, B = mk(ta, pa), mk(tb, pb)
+    sa, sb = _bits(A), _bits(B)
+    ca, cb = canonical_form(A.to_stabilizer()), canonical_form(B.to_stabilizer())
+    for c, v, lab in ((ca, va, "first"), (cb, vb, "second")):
+        tab, ph = np.asarray(c.table), np.asarray(c.phase)
+        if not R.valid_stabilizer_rows(tab, n) or not R.valid_phase(ph, n):
+            return f"canonical form of the {lab} state is not n independent commuting rows: {tab.tolist()}"
+        bad = R.rows_describe(v, n, tab, ph)
+        if bad is not None:
+            return f"row {bad} of the canonical form of the {lab} state does not stabilise it: {tab.tolist()} {ph.tolist()}"
+    eq = bool(ca == cb)
+    if eq != same:
+        return (f"states are {'the same' if same else 'different'} but the canonical forms compare {'equal' if eq else 'unequal'}: "
+                f"{np.asarray(ca.table).tolist()} {np.asarray(ca.phase).tolist()} vs {np.asarray(cb.table).tolist()} {np.asarray(cb.phase).tolist()}")
+    e1, e2 = Stabilizer(A) == Stabilizer(B), Stabilizer(B) == Stabilizer(A)
+    if bool(e1) != same or bool(e2) != same:
+        return f"Stabilizer.__eq__ gives {e1}/{e2} for {'the same state' if same else 'different states'}"
+    for lab, T, s in (("first", A, sa), ("second", B, sb)):
+        d = _changed(T, s)
+        if d:
+            return f"to_stabilizer + canonical_form / __eq__ changed the {lab} CliffordTableau: {d}"
+    return None
+
+
+# ------------------------------------------------------------------------------------------------------------
 # domains
 # ------------------------------------------------------------------------------------------------------------
 _PRES = {}
@@ -452,4 +718,73 @@ def run(tier, seed):
         inf.append([rand_pres3(), (idx // 4) % 2, sm, br])
         idx += 1
     S.map("Infidelity.evaluate.stabilizer_target", inf)
+
+    # ---- argument frames / repeated use / construction variants / larger n
+    def sign_variant_pair(n):
+        a = R.RefTableau.random(n, rng)
+        b = a.copy()
+        flips = rng.choice(n, size=int(rng.integers(1, n + 1)), replace=False)
+        for i in flips:
+            b.R[n + int(i)] ^= 1
+        b.mix_presentation(rng)
+        return [a.table().tolist(), a.R.tolist(), b.table().tolist(), b.R.tolist()]
+
+    def same_state_pair(n):
+        a = R.RefTableau.random(n, rng)
+        b = a.copy().mix_presentation(rng)
+        return [a.table().tolist(), a.R.tolist(), b.table().tolist(), b.R.tolist()]
+
+    def mixed_pairs(n, count):
+        out = []
+        for i in range(count):
+            k = i % 4
+            out.append(list(same_state_pair(n) if k == 0 else sign_variant_pair(n) if k == 1 else _near_pair(n, rng) if k == 2 else _rand_tab(n, rng) + _rand_tab(n, rng)))
+        return out
+
+    def sample2(count):
+        idx = rng.integers(0, 360, size=(count, 2))
+        return [P2(int(a), int(rng.integers(0, 4))) + P2(int(b), int(rng.integers(0, 4))) for a, b in idx]
+
+    q = 1 if not thorough else 4
+    fr = [a + b for a in t1 for b in t1] + sample2(600 * q) + [rand_pres3() + rand_pres3() for _ in range(150 * q)] + mixed_pairs(3, 150 * q) + mixed_pairs(4, 200 * q)
+    S.map("arguments_unchanged", fr)
+    al = [list(a) for a in t1] + [P2(k, k % 4) for k in range(360)]
+    for n in (3, 4):  # n >= 5 would touch known finding C05-F1 (inverse_circuit) with seed-dependent inputs
+        al += [list(_rand_tab(n, rng)) for _ in range(80 * q)]
+    S.map("same_object_on_both_sides", al)
+    ru = []
+    for i in range(250 * q):
+        n = 1 + i % 4
+        first = mixed_pairs(n, 1)[0]
+        a = R.RefTableau.from_arrays(first[0], first[1])
+        others = []
+        for j in range(int(rng.integers(4, 7))):
+            k = j % 4
+            if k == 0:
+                b = a.copy().mix_presentation(rng)
+            elif k == 1:
+                b = a.copy()
+                b.R[n + int(rng.integers(0, n))] ^= 1
+                b.mix_presentation(rng)
+            elif k == 2:
+                b = a.copy()
+                for _ in range(int(rng.integers(1, 4))):
+                    b.gate(["H", "P", "X", "Z", "Y"][int(rng.integers(0, 5))], [int(rng.integers(0, n))])
+                b.mix_presentation(rng)
+            else:
+                b = R.RefTableau.random(n, rng)
+            others.append([b.table().tolist(), b.R.tolist()])
+        ru.append([[first[0], first[1]], others])
+    S.map("object_reuse.one_against_many", ru)
+    va = []
+    nv = len(VARIANTS)
+    base_pairs = {1: [rp(1, i) + rp(1, j) for i in range(6) for j in range(6)], 2: sample2(64 * q), 3: mixed_pairs(3, 64 * q), 4: mixed_pairs(4, 64 * q)}
+    for n, prs in base_pairs.items():
+        for i, pr in enumerate(prs):
+            va.append(list(pr) + [i % nv, (i // nv + i) % nv])
+    S.map("construction_variants", va, nontrivial=lambda x: x[4] != 0 or x[5] != 0)
+    lg = []
+    for n in (4, 5, 6, 7):
+        lg += mixed_pairs(n, (60 if n < 7 else 24) * q)
+    S.map("canonical_form_and_equality.n4_to_7_sampled", lg)
     return S
